@@ -1000,8 +1000,16 @@ impl HttpRequest for VHttp {
                     let wrap = ans["wrap"].as_str().unwrap_or("plain").to_string();
                     let mut auth = ans["auth"].as_str().unwrap_or("genuine").to_string();
                     let mut served_sig: Option<Vec<u8>> = None;
+                    let raw_etag: Option<Vec<u8>> = ans.get("etag_raw").and_then(|x| x.as_array())
+                        .map(|a| a.iter().map(|b| b.as_u64().unwrap_or(63) as u8).collect());
                     if !self.cup {
                         auth = "na".into();
+                    } else if let Some(raw) = raw_etag {
+                        // an arbitrary ETag header value (degenerate texts, non-ASCII bytes): never a valid signature
+                        if let Ok(hv) = http::HeaderValue::from_bytes(&raw) {
+                            rb = rb.header("ETag", hv);
+                        }
+                        auth = "forged".into();
                     } else if let Some(c2k) = &cup2key {
                         let kid: u64 = c2k.split(':').next().and_then(|k| k.parse().ok()).unwrap_or(0);
                         let mut g = lk(&self.w);
